@@ -2,7 +2,7 @@
 import histcheck
 
 PID = "C03"
-COMMON = ["hist", "-proj", "bank,dispute", "-boundary", "-gov", "-jumps", "-valstatus", "-maxops", "6", "-stories", "50", "-bbias", "1"]
+COMMON = ["hist", "-proj", "bank,dispute", "-boundary", "-gov", "-jumps", "-valstatus", "-maxops", "6", "-stories", "50", "-bbias", "1", "-minthalf"]
 
 def run(tier, seed, replay):
     return histcheck.run(
